@@ -250,6 +250,19 @@ def restore_expect(world, facts, before, obs, slots, inscope_good):
             # on the string and may create 'gone' of 'a/gone/../x' before it fails - or succeed.  What is certain: the
             # file the path designates once every missing directory exists is never replaced without --overwrite
             at = _virtual_dest(before, loc)
+            if at is None and loc.startswith(b"/"):
+                # a symbolic link on the way ('a/link/../x'): the kernel follows it before it goes up.  When every directory
+                # on that way exists, the entry goes exactly where the kernel says - not where the text collapses to
+                from .model import phys_resolve
+                pr = phys_resolve(before, loc)
+                par_ = pr.rsplit(b"/", 1)[0] or b"/"
+                if before.get(par_, ("",))[0] == "d" and before.get(pr) is None and not o.get("overwrite") \
+                        and before.get(e["tdir"] + b"/files/" + e["name"]) is not None:
+                    slots[k] = ("restored", pr)
+                    done.add(k)
+                    restored_locs.add(loc)
+                    notes["tags"].append("restore:dot-components-through-link")
+                    continue
             if at is not None and before.get(at) is not None and not o.get("overwrite"):
                 notes["refused"] = True
                 notes["tags"].append("restore:dot-components-onto-existing")
@@ -423,6 +436,14 @@ def evaluate(world, drv, want_states=False, oracles=("effects",), plan=None, fau
             res["oracle"]["effects"] = drv.ask(dict(base, prop="effects", dirs=[hx(t) for t in tdirs], slots=slot_rows))
         else:
             res["tags"].append("crashed:" + str(obs.get("exc")))
+            # the run died: which entries it got to is anybody's guess, but the frame holds all the same (nothing outside
+            # files/ and info/ of the trash directories, and those two directories themselves, may have changed)
+            any_rows = [dict(r_, expect="any") for r_ in slot_rows]
+            for r_ in any_rows:
+                r_.pop("dest", None)
+            fr = drv.ask(dict(base, prop="effects", dirs=[hx(t) for t in tdirs], slots=any_rows))
+            if not fr["ok"] and ("outside" in fr["verdict"] or "Dir" in fr["verdict"] or "dir" in fr["verdict"]):
+                res["oracle"]["effects"] = fr
     if "crash15" in oracles and want_states and not notes.get("stop_checking"):
         bad = None
         for i, s in enumerate(obs["states"]):
@@ -471,6 +492,13 @@ def evaluate(world, drv, want_states=False, oracles=("effects",), plan=None, fau
             if e["tdir"] in facts["insecure_roots"]:
                 # the same original location may also be recorded by entries of usable directories: count the lines
                 shown = (obs["stdout"] + b"\n").count(b" " + e["loc"] + b"\n")
+                if b"/../" in obs["stdout"]:
+                    # a volume spelled through 'link/..': the printed path names the same place in other words
+                    from .model import phys_resolve
+                    for ln in obs["stdout"].split(b"\n"):
+                        m_ = re.match(rb"^(?: *\d+ )?\S+ \S+ (/.*/\.\./.*)$", ln)
+                        if m_ and os.path.normpath(m_.group(1)) == e["loc"] and phys_resolve(before, m_.group(1)) != e["loc"]:
+                            shown += 1        # textually collapsed it IS the insecure entry's location, physically another
                 elsewhere = sum(1 for o in world["meta"]["entries"] if o["loc"] == e["loc"] and o["tdir"] not in facts["insecure_roots"])
                 if shown > elsewhere:
                     mentions = True
